@@ -1,5 +1,3 @@
-//go:build verif_c13
-
 package harness
 
 import (
@@ -7,7 +5,12 @@ import (
 	"context"
 	"encoding/hex"
 	"fmt"
+	"go/ast"
+	"go/parser"
+	"go/printer"
+	"go/token"
 	"os"
+	"path/filepath"
 	"sort"
 	"strings"
 	"sync"
@@ -437,7 +440,113 @@ loop:
 	return run
 }
 
-// c13Readable counts the live members whose signature domain the leader's loop reads (1..n-2).
+// c13Variant is the reading of deploy/notary.go the model is run with
+// (Model/DeployProto.v, [variant]): as_repaired describes the working tree
+// since fix commits 70faaf5/d247004; as_pinned the code before them.
+func c13Variant() string { return envOr("VERIF_C13_VARIANT", "as_repaired") }
+
+// c13SourceFacts walks deploy/notary.go with go/ast and returns, as a Coq
+// term, the index expressions the model depends on: the leader's collection
+// loop (first index, number of indices, key used for verification and for the
+// map) and the signature assembly loop (map range or sorted indices), plus
+// the signer's domain index. A source edit to those loops changes these
+// facts and breaks the correspondence before any schedule exhibits it.
+func c13SourceFacts(t testing.TB) (coq string, human map[string]any) {
+	fset := token.NewFileSet()
+	file := filepath.Join(RepoDir, "deploy", "notary.go")
+	f, err := parser.ParseFile(fset, file, nil, 0)
+	require.NoError(t, err)
+	src := func(n ast.Node) string {
+		if n == nil {
+			return "_"
+		}
+		var sb strings.Builder
+		require.NoError(t, printer.Fprint(&sb, fset, n))
+		return sb.String()
+	}
+	flat := func(n ast.Node) string { return strings.Join(strings.Fields(src(n)), " ") }
+	calls := func(n ast.Node, fn string, arg string) bool { // contains a call fn(arg)
+		found := false
+		ast.Inspect(n, func(x ast.Node) bool {
+			if c, ok := x.(*ast.CallExpr); ok && src(c.Fun) == fn && len(c.Args) >= 1 && src(c.Args[0]) == arg {
+				found = true
+			}
+			return !found
+		})
+		return found
+	}
+	contains := func(n ast.Node, text string) bool { return strings.Contains(flat(n), text) }
+	line := func(n ast.Node) string { return fmt.Sprintf(" (notary.go:%d)", fset.Position(n.Pos()).Line) }
+	first, countOff, sorted := -1, -1, -1
+	verifyOwn, keyOwn, signerOwn := false, false, false
+	human = map[string]any{"file": file}
+	for _, d := range f.Decls {
+		fd, ok := d.(*ast.FuncDecl)
+		if !ok {
+			continue
+		}
+		switch fd.Name.Name {
+		case "initDesignateNotaryRoleAsLeaderTick":
+			ast.Inspect(fd, func(x ast.Node) bool {
+				switch st := x.(type) {
+				case *ast.RangeStmt:
+					if k, ok := st.Key.(*ast.Ident); ok && calls(st.Body, "designateNotarySignatureDomainForMember", k.Name) {
+						// for i := range prm.committee[a:]  -> i = 0 .. n-a-1
+						human["leader_loop"] = "for " + src(st.Key) + " := range " + src(st.X) + line(st)
+						if se, ok := st.X.(*ast.SliceExpr); ok && src(se.X) == "prm.committee" && se.High == nil && se.Low != nil {
+							if _, err := fmt.Sscan(src(se.Low), &countOff); err == nil {
+								first = 0
+							}
+						} else if src(st.X) == "prm.committee" {
+							first, countOff = 0, 0
+						}
+						verifyOwn = contains(st.Body, "prm.committee["+k.Name+"].VerifyHashable(")
+						keyOwn = contains(st.Body, "mCommitteeIndexToSignature["+k.Name+"] = ")
+					}
+					if contains(st.Body, "buf[0] = byte(opcode.PUSHDATA1)") {
+						human["assembly_loop"] = "for " + src(st.Key) + ", " + src(st.Value) + " := range " + src(st.X) + line(st)
+						switch {
+						case src(st.X) == "mCommitteeIndexToSignature":
+							sorted = 0 // Go map range: unspecified order
+						case st.Value != nil && contains(fd, "slices.Sort("+src(st.X)+")") &&
+							contains(st.Body, ":= mCommitteeIndexToSignature["+src(st.Value)+"]") &&
+							contains(fd, "range mCommitteeIndexToSignature { "+src(st.X)+" = append("+src(st.X)+", "):
+							sorted = 1 // the keys of the map, sorted, then looked up
+						}
+					}
+				case *ast.ForStmt:
+					as, ok := st.Init.(*ast.AssignStmt)
+					if !ok || len(as.Lhs) != 1 || len(as.Rhs) != 1 {
+						return true
+					}
+					k := src(as.Lhs[0])
+					if calls(st.Body, "designateNotarySignatureDomainForMember", k) {
+						// for i := a; i < len(prm.committee); i++  -> i = a .. n-1
+						human["leader_loop"] = "for " + src(st.Init) + "; " + src(st.Cond) + "; " + src(st.Post) + line(st)
+						if src(st.Cond) == k+" < len(prm.committee)" && src(st.Post) == k+"++" {
+							if _, err := fmt.Sscan(src(as.Rhs[0]), &first); err == nil {
+								countOff = first
+							}
+						}
+						verifyOwn = contains(st.Body, "prm.committee["+k+"].VerifyHashable(")
+						keyOwn = contains(st.Body, "mCommitteeIndexToSignature["+k+"] = ")
+					}
+				}
+				return true
+			})
+		case "initDesignateNotaryRoleAsSignerTick":
+			signerOwn = contains(fd, "domain := designateNotarySignatureDomainForMember(prm.localAccCommitteeIndex)")
+		}
+	}
+	require.True(t, first >= 0 && countOff >= 0 && sorted >= 0, "leader collection loop / assembly loop of deploy/notary.go not recognised: %v", human)
+	human["first_index"], human["indices_visited"], human["assembly_sorted"] = first, fmt.Sprintf("n-%d", countOff), sorted == 1
+	human["verifies_domain_i_with_committee_i"], human["map_key_is_i"], human["signer_writes_own_index"] = verifyOwn, keyOwn, signerOwn
+	coq = fmt.Sprintf("check_src %s (mkVariant %d %s) %d %s %s %s", c13Variant(), first, BoolLit(sorted == 1), countOff,
+		BoolLit(verifyOwn), BoolLit(keyOwn), BoolLit(signerOwn))
+	return coq, human
+}
+
+// c13Readable counts the live members 1..n-2 (the only ones the leader's loop counted before fix 70faaf5).
 func c13Readable(n int, live []int) int {
 	c := 0
 	for _, m := range live {
@@ -486,10 +595,10 @@ func c13Judge(c *c13, name string, n int, live []int, fair bool, designated bool
 		if a.Verdict == "accepted" && !sort.IntsAreSorted(a.By) {
 			c.st.AddViolation("node accepted a witness out of key order", replay)
 		}
-		if bad == "" && a.AllOwn && len(a.By) == m && !sort.IntsAreSorted(a.By) && strings.Contains(a.Verdict, "-508") {
-			// F8: valid signatures of distinct members, right count, appended in Go map order
-			c.st.AddKnown("C13/notary-bootstrap-signature-order")
-			c.st.OutcomeHistogram["bootstrap-attempt:refused-for-order(F8)"]++
+		if bad == "" && a.AllOwn && len(a.By) == m && !sort.IntsAreSorted(a.By) {
+			// signature of the defect repaired by d247004: valid signatures of distinct members, right count, not in key order
+			c.st.AddViolation("notary bootstrap assembled valid signatures out of key order (fixed by d247004): "+name, replay)
+			c.st.OutcomeHistogram["bootstrap-attempt:out-of-key-order"]++
 		} else if a.Verdict == "accepted" {
 			c.st.OutcomeHistogram["bootstrap-attempt:accepted"]++
 		} else {
@@ -502,13 +611,13 @@ func c13Judge(c *c13, name string, n int, live []int, fair bool, designated bool
 	case !fair || !c13HasLeader(live) || len(live) < m:
 		return "not-designated(no live majority with leader, or unfair schedule)"
 	case len(attempts) == 0 && c13Readable(n, live) < m-1:
-		// F7: the leader's loop reads domains 0..n-2 while member k writes domain k
-		c.st.AddKnown("C13/notary-bootstrap-indices")
-		return "stuck:indices(F7)"
+		// signature of the defect repaired by 70faaf5: the leader's loop read domains 0..n-2 while member k writes domain k
+		c.st.AddViolation("notary bootstrap stuck: live members outside 1..n-2 are not counted (leader loop indices, fixed by 70faaf5): "+name, replay)
+		return "stuck:indices"
 	case len(attempts) > 0:
 		last := attempts[len(attempts)-1]
-		if last.AllOwn && len(last.By) == m && !sort.IntsAreSorted(last.By) && strings.Contains(last.Verdict, "-508") {
-			return "stuck:signature-order(F8)" // recorded above
+		if last.AllOwn && len(last.By) == m && !sort.IntsAreSorted(last.By) {
+			return "stuck:signature-order" // violation recorded above
 		}
 	}
 	c.st.AddViolation("fair run with a live majority including the leader did not designate the Notary role: "+name, replay)
@@ -556,9 +665,9 @@ func c13Bootstrap(c *c13) (string, string) {
 	}
 	scens := []scen{
 		fairRun(1, all(1), 3),
-		fairRun(2, all(2), 8), // F7: nothing is ever read
+		fairRun(2, all(2), 8), // before 70faaf5 nothing was ever read
 		fairRun(3, all(3), 8),
-		fairRun(3, []int{0, 2}, 8), // F7: the last member is never read
+		fairRun(3, []int{0, 2}, 8), // before 70faaf5 the last member was never read
 		fairRun(3, []int{0, 1}, 8),
 		fairRun(4, all(4), 10),
 		fairRun(4, []int{0, 2, 3}, 9), // majority, but only member 2 is readable
@@ -626,7 +735,7 @@ func c13Bootstrap(c *c13) (string, string) {
 		if os.Getenv("VERIF_C13_LOG") != "" {
 			fmt.Printf("SEQ %-70s %s attempts=%+v\n", sc.name, out, q.attempts)
 		}
-		if i == 1 || i == 3 || i == 5 {
+		if i == 1 { // n=2, both live, as labels of the model
 			c.st.Samples = append(c.st.Samples, map[string]any{"run": sc.name, "outcome": out, "designation_attempts": q.attempts, "labels": q.steps})
 		}
 		pcases = append(pcases, "(* "+sc.name+": "+out+" *) "+q.coq())
@@ -667,5 +776,10 @@ func c13Bootstrap(c *c13) (string, string) {
 			"blocks": run.Blocks, "budget": run.Budget, "designated": run.Done, "returned": run.Returned, "sent": run.Sent}
 	}
 	defs := "Definition pcases : list pcase := [\n" + strings.Join(pcases, ";\n") + "\n].\n"
-	return defs, " ++ map check_pcase pcases"
+	srcCheck, srcFacts := c13SourceFacts(c.t)
+	c.st.Extra["deploy/notary.go index expressions (go/ast)"] = srcFacts
+	c.st.Evaluations++
+	defs += "(* index expressions of deploy/notary.go found by go/ast, against the model's variant *)\n" +
+		"Definition M_src := Eval vm_compute in failures_from 0 [" + srcCheck + "].\nPrint M_src.\n"
+	return defs, " ++ [" + srcCheck + "] ++ map (check_pcase " + c13Variant() + ") pcases"
 }
